@@ -1283,6 +1283,148 @@ def dsl_class(p, k, err):
 
 
 # ---------------------------------------------------------------------------------------------------------------
+# part 4: stress -- deep nesting, long tokens, junk bytes, recursion (DSL front end and the JSON / flatten machinery)
+# ---------------------------------------------------------------------------------------------------------------
+def stress_cases(ctx):
+    """(family, kind, args, stdin, program-or-None, expect_nontermination).  kind 'dsl' runs `mlr -n put -f <file>`.
+    The generated LR parser and the recursive CST builder/evaluator, json decoder and flatten/unflatten recurse on the nesting
+    depth: a Go stack overflow ("goroutine stack exceeds") would be a fatal error, i.e. a violation.  Depths: linear-cost
+    families go to 3*10^3 (quick) / 10^5 (thorough); families whose cost is quadratic in the depth on this tree (nested map/array
+    literals, nested JSON objects, UDF recursion: observed, finite) stay at depths that finish in seconds."""
+    rng = ctx.rng
+    T = ctx.tier == "thorough"
+    N = 100000 if T else 3000          # linear families
+    Q = 4000 if T else 500             # quadratic families
+    cases = []
+    dsl = lambda fam, p, nonterm=False: cases.append((fam, "dsl", None, b"", p, nonterm))
+    dsl("deep-parens", "end{print " + "(" * N + "1" + ")" * N + "}")
+    dsl("deep-unary-minus", "end{print " + "-" * N + "1}")
+    dsl("deep-unary-not", "end{print " + "!" * N + "true}")
+    dsl("long-binop-chain", "end{print 1" + "+1" * N + "}")
+    dsl("long-dot-chain", "end{print 1" + " . 1" * N + "}")
+    dsl("long-logical-chain", "end{print true" + " && true" * N + "}")
+    dsl("deep-index", "end{x=[1];print x" + "[1]" * N + "}")
+    dsl("deep-calls", "end{print " + "strlen(" * N + "1" + ")" * N + "}")
+    dsl("deep-ternary", "end{print " + "true?1:" * N + "2}")
+    dsl("deep-blocks", "end{" + "if(true){" * N + "print 1" + "}" * N + "}")
+    dsl("deep-while-blocks", "end{" + "while(false){" * (N // 10) + "print 1" + "}" * (N // 10) + "}")
+    dsl("long-statement-list", "end{" + "x=1;" * N + "print x}")
+    dsl("deep-array-literal", "end{x=" + "[" * Q + "1" + "]" * Q + ";print depth(x)}")
+    dsl("deep-map-literal", "end{x=" + '{"a":' * Q + "1" + "}" * Q + ";print depth(x)}")
+    dsl("deep-unbalanced-open", "end{print " + "(" * N + "1}")
+    dsl("deep-unbalanced-brackets", "end{print " + "[" * N)
+    dsl("deep-unbalanced-braces", "end{" + "{" * N)
+    dsl("deep-unbalanced-close", "end{print 1" + ")" * N + "}")
+    dsl("long-identifier", "end{" + "x" * (10 * N) + "=1;print " + "x" * (10 * N) + "}")
+    dsl("long-field-name", "$" + "y" * (10 * N) + "=1")
+    dsl("long-int-literal", "end{print " + "9" * (10 * N) + "}")
+    dsl("long-float-literal", "end{print 1." + "9" * (10 * N) + "e" + "9" * 400 + "}")
+    dsl("long-string-literal", 'end{print strlen("' + "s" * (100 * N) + '")}')
+    dsl("long-comment", "end{print 1} #" + "c" * (100 * N))
+    dsl("unterminated-string", 'end{print "abc')
+    dsl("unterminated-string-backslash", 'end{print "abc\\')
+    dsl("unterminated-braced-field", "end{print ${abc")
+    dsl("unterminated-block", "end{print 1")
+    dsl("nul-bytes", "end{print 1\x00 + 2}")
+    dsl("nul-in-string", 'end{print "a\x00b"}')
+    dsl("only-nul", "\x00" * 100)
+    for j in range(4 if not T else 60):
+        dsl("random-bytes", bytes(rng.randrange(256) for _ in range(rng.randint(1, 300))).decode("latin1"))
+        dsl("random-ascii-junk", "".join(rng.choice("(){}[];,=$@\"'\\#.+-*/%<>!&|^~?: \n\tabfunc019e") for _ in range(rng.randint(1, 200))))
+    dsl("invalid-utf8-string", b'end{print "\xff\xfe\xc3(\xe2\x82" . "x"; print strlen("\xc3"); print toupper("\xf0\x9f"); print format_values("\xff")}'.decode("latin1"))
+    dsl("invalid-utf8-field-name", b'$\xff\xfe = 1; ${a\xffb} = 2; @\xc3 = 3; $*["\xff"] = 4'.decode("latin1"))
+    dsl("invalid-utf8-identifier", b'end{\xff\xfe = 1; func\xc3(1)}'.decode("latin1"))
+    dsl("func-redefinition", "func f(x){return 1} func f(x){return 2} end{print f(1)}")
+    dsl("func-redefines-builtin", "func strlen(x){return 1} end{print strlen(1)}")
+    dsl("func-inside-func", "func f(x){ func g(y){return 1} return 2} end{print f(1)}")
+    dsl("subr-redefinition", "subr s(x){print 1} subr s(x){print 2} end{call s(1)}")
+    dsl("func-wrong-arity-call", "func f(x){return 1} end{print f(1,2)}")
+    dsl("func-no-return", "func f(x){ } end{print f(1)}")
+    dsl("funct-literal-wrong-arity", "end{print apply([1,2], func(a,b,c){return 1}); print sort([1,2], func(a){return 1}); print fold([1,2], func(a){return 1}, 0); print reduce([], func(){return 1})}")
+    R = 20000 if T else 1000
+    dsl("bounded-recursion", "func f(n) { if (n<=0) {return 0} return 1+f(n-1) } end{print f(%d)}" % R)
+    dsl("bounded-mutual-recursion", "func f(n) { if (n<=0) {return 0} return 1+g(n-1) } func g(n) { return f(n) } end{print f(%d)}" % R)
+    dsl("bounded-subr-recursion", "subr s(n) { if (n>0) {call s(n-1)} } end{call s(%d); print 1}" % R)
+    # a program that does not terminate is the USER's: expected outcome is the wall-clock cap; a Go fatal error
+    # (stack exceeds 1 GB, out of memory within the cap) would be a violation
+    dsl("unbounded-recursion", "func f(x) { return f(x) } end{print f(1)}", True)
+    dsl("unbounded-subr-recursion", "subr s(x) { call s(x) } end{call s(1)}", True)
+    inp = lambda fam, args, data: cases.append((fam, "input", args, data, None, False))
+    inp("json-open-brackets", ["--ijson", "--ojson", "cat"], b"[" * (10 * N))
+    inp("json-open-braces", ["--ijson", "--ojson", "cat"], b'{"a":' * (10 * N))
+    inp("json-deep-arrays", ["--ijson", "--ojsonl", "cat"], b'{"a":' + b"[" * N + b"1" + b"]" * N + b"}")
+    inp("json-deep-arrays-flatten", ["--ijson", "--ocsv", "cat"], b'{"a":' + b"[" * Q + b"1" + b"]" * Q + b"}")
+    inp("json-deep-objects", ["--ijson", "--ojsonl", "cat"], b'{"a":' * Q + b"1" + b"}" * Q)
+    inp("json-deep-objects-flatten", ["--ijson", "--oxtab", "cat"], b'{"a":' * Q + b"1" + b"}" * Q)
+    inp("json-deep-top-level-arrays", ["--ijson", "--ojson", "cat"], b"[" * N + b'{"a":1}' + b"]" * N)
+    inp("json-close-brackets", ["--ijson", "--ojson", "cat"], b"]" * N)
+    inp("json-long-string", ["--ijson", "--ojson", "cat"], b'{"a":"' + b"s" * (100 * N) + b'"}')
+    inp("json-long-number", ["--ijson", "--ojson", "cat"], b'{"a":' + b"9" * (10 * N) + b"}")
+    inp("json-long-key", ["--ijson", "--ojson", "cat"], b'{"' + b"k" * (10 * N) + b'":1}')
+    inp("json-bad-escapes", ["--ijson", "--ojson", "cat"], b'{"a":"\\u12","b":"\\ud800","c":"\\x","d":"\\')
+    inp("json-nul-bytes", ["--ijson", "--ojson", "cat"], b'{"a":"\x00","\x00":1}\x00')
+    inp("jsonl-deep-arrays", ["--ijsonl", "--ojsonl", "cat"], b'{"a":' + b"[" * N + b"1" + b"]" * N + b"}\n")
+    inp("csv-deep-unflatten", ["--icsv", "--ojsonl", "cat"], b".".join([b"a"] * Q) + b"\n1\n")
+    inp("csv-deep-unflatten-verb", ["--icsv", "--ocsv", "unflatten", "then", "flatten"], b".".join([b"a"] * Q) + b"\n1\n")
+    inp("yaml-deep-flow", ["--iyaml", "--ojsonl", "cat"], b"a: " + b"[" * Q + b"1" + b"]" * Q + b"\n")
+    inp("yaml-deep-block", ["--iyaml", "--ojsonl", "cat"], b"".join(b"  " * i + b"a:\n" for i in range(300)) + b"  " * 300 + b"b: 1\n")
+    inp("yaml-alias-expansion", ["--iyaml", "--ojsonl", "nothing"], b"a: &a [1,1]\nb: &b [*a,*a]\nc: &c [*b,*b]\nd: &d [*c,*c]\ne: [*d,*d]\n")
+    inp("dkvp-long-line", ["--idkvp", "--ojson", "cat"], b"a=" + b"x" * (100 * N) + b"\n")
+    inp("csv-long-quoted-field", ["--icsv", "--ojson", "cat"], b'a\n"' + b"x\n" * (10 * N) + b'"\n')
+    return cases
+
+
+def stress_part(ctx):
+    cases = stress_cases(ctx)
+    d = Path(SANDBOX["dir"])
+
+    def go(ic):
+        i, (fam, kind, args, data, prog, nonterm) = ic
+        if kind == "dsl":
+            f = d / ("stress_%d.mlr" % i)
+            f.write_bytes(prog.encode("latin1"))
+            args = ["-n", "put", "-f", str(f)]
+        to = 12 if nonterm else 90
+        if nonterm:     # one attempt only: the cap is the expected outcome
+            st, out, err = mlr_run(ctx, args, data, timeout=to, max_out=50_000_000, env=SAFE_ENV, cwd=SANDBOX["dir"])
+        else:
+            st, out, err = run_cli(ctx, args, data, timeout=to, max_out=50_000_000)
+        k = c18_classify(st, err)
+        if kind == "dsl":
+            try:
+                f.unlink()
+            except OSError:
+                pass
+        return fam, kind, args, data, prog, nonterm, k, st, err
+    with ctx.timed("stress"):
+        with cf.ThreadPoolExecutor(min(8, NJOBS + 2)) as ex:
+            results = list(ex.map(go, enumerate(cases)))
+    summary, tally, seen = {}, {}, set()
+    for fam, kind, args, data, prog, nonterm, k, st, err in results:
+        ctx.count(("stress", fam, prog if prog is not None else data)); ctx.dist("stress:" + fam)
+        kk = "capped-nonterminating-user-program" if (nonterm and k == "hang") else k
+        summary.setdefault(fam, {}).setdefault(kk, 0)
+        summary[fam][kk] += 1
+        tally[kk] = tally.get(kk, 0) + 1
+        if kk in ("ok", "mlr_error", "capped-nonterminating-user-program"):
+            continue
+        m = re.search(rb"(?:panic|fatal error): ([^\n]{0,60})", err)
+        what = re.sub(rb"[^a-z]+", b"-", (m.group(1) if m else b"").lower()).strip(b"-").decode()[:40]
+        cls = "stress-%s-%s%s" % (kk, fam, ("-" + what) if what else "")
+        if cls in seen:
+            continue
+        seen.add(cls)
+        gen = {"family": fam, "program_len": len(prog) if prog is not None else None, "stdin_len": len(data)}
+        ctx.violation({"class": cls, "part": "stress", "family": fam, "args": args if kind != "dsl" else ["-n", "put", "-f", "<program>"],
+                       "program": prog if (prog is not None and len(prog) <= 4000) else None, "program_head": prog[:200] if prog is not None else None,
+                       "stdin_hex": data.hex() if len(data) <= 4000 else None, "stdin_head_hex": data[:100].hex(), "generator": gen,
+                       "input": "stress family %s (see stress_cases in c18.py; tier %s)" % (fam, ctx.tier),
+                       "observed": "%s exit=%s %s" % (k, st, err.decode("utf-8", "replace")[:500]),
+                       "expected": "output, or an `mlr:` error with non-zero exit, in bounded time"})
+    ctx.cov["stress"] = {"cases": len(cases), "families": len(summary), "classes": tally, "per_family": summary}
+
+
+# ---------------------------------------------------------------------------------------------------------------
 def run(ctx):
     ctx.cov["rule"] = ("(1) every row of the built-in function table x every tuple of 37 argument-kind representatives for arity <= 2, and of "
                        "12 (quick) / 37 (thorough) for arity 3, invoked as the callsite nodes do, outcome table regenerated and re-proved; "
@@ -1334,6 +1476,8 @@ def run_parts(ctx, exe):
         special_inputs(ctx)
     if want("dsl"):
         dsl_part(ctx, exe)
+    if want("stress"):
+        stress_part(ctx)
 
 
 def replay(ctx, path):
